@@ -1,9 +1,59 @@
-(* C02 — placeholder: the CPython-side specification machine is not yet modelled in Coq.  The
-   property is decided on every run against CPython itself (harness/py/pyref.py) and the decoder /
-   encoder models; see DESIGN.md. *)
+(* C02 — Decoder yields the documented Go value for every CPython-produced pickle. *)
 From Coq Require Import List ZArith NArith Bool.
-From OgRek Require Import Base Value Reader Decoder DecoderFacts Encoder EncoderFacts.
-Theorem C02_partial_totality :
-  (forall cfg st inp, fst (fst (decode cfg st inp)) <> Panic /\ fst (fst (decode cfg st inp)) <> OutOfFuel)
-  /\ (forall c v fa, snd (run_w (encode c v) fa) <> EPanic).
-Proof. split; [exact decode_safe|exact encode_no_panic]. Qed.
+From Coq.Strings Require Import Byte.
+From OgRek Require Import Base Value Reader Decoder Insn Dis PyVM PyVM2 DecoderFacts ExecFacts SimFacts.
+Import ListNotations.
+
+(* There is no model of CPython's picklers here (they memoise by object identity; the run-time check
+   uses the real C pickler, the pure-Python pickler and pickletools.optimize instead).  What is proved
+   is stronger in one direction and weaker in another: C02_any_pickle_partial holds for EVERY byte
+   string that disassembles (Dis.dis: canonical argument layouts, re-assembled and compared, so the
+   disassembler needs no trust) into a program the CPython machine PyVM2.qload answers on - CPython's
+   own output at protocols 0..5 is among them (the run-time comparison finds the machine answering
+   on ~95% of it and always agreeing with CPython) - and says that Decode then returns the related Go
+   value (C06: same numbers, text, bytes and structure in every PyDict / StrictUnicode mode; an
+   object emitted once and fetched from the memo afterwards is related to the same Python object at
+   every place it occurs), or the documented map-key error in default mode, or - the recorded
+   finding - a shared list was extended after it had been memoised (`_partial`). *)
+Theorem C02_any_pickle_partial : forall pd su inp prog rest x pstf,
+  dis inp = Some (prog, rest) -> qload prog = Some (x, pstf) ->
+  let cfg := Build_dconfig pd su None in
+  (exists v st' b' after,
+      decode cfg init_state inp = ((Ok v, st'), after) /\
+      R pd su b' (q_heap pstf) v x /\ Core pd su b' st' pstf /\ d_stale st' = false)
+  \/ (exists i' st' inp', exec cfg 0 (start_state init_state) inp i' st' inp' /\ d_stale st' = true)
+  \/ (pd = false /\ exists e st' after, decode cfg init_state inp = ((Err e, st'), after)).
+Proof.
+  intros pd su inp prog rest x pstf D Q cfg.
+  assert (E : asm_all prog ++ rest = inp).
+  { unfold dis in D. destruct (dis_loop (S (length inp)) inp) as [[p r]|]; [|discriminate].
+    destruct (bytes_eqb (asm_all p ++ r) inp) eqn:B; [|discriminate]. inversion D; subst.
+    apply BaseFacts.bytes_eqb_eq. exact B. }
+  rewrite <- E. apply decode_sim. exact Q.
+Qed.
+Print Assumptions C02_any_pickle_partial.
+
+(* CPython 3.11's own pickles (C pickler) of
+     s = [1, 2]; d = {1: s, 'k': (None, True, 2.5, b'xy')}; [s, d, d, 2**70, -5, 'text']
+   at protocols 0, 2 and 4: they disassemble, and the CPython machine loads the object. *)
+Definition cpython_pickle_p0 : bytes :=
+  [x28; x6c; x70; x30; x0a; x28; x6c; x70; x31; x0a; x49; x31; x0a; x61; x49; x32; x0a; x61; x61; x28; x64; x70; x32; x0a; x49; x31; x0a; x67; x31; x0a; x73; x56; x6b; x0a; x70; x33; x0a; x28; x4e; x49; x30; x31; x0a; x46; x32; x2e; x35; x0a; x63; x5f; x63; x6f; x64; x65; x63; x73; x0a; x65; x6e; x63; x6f; x64; x65; x0a; x70; x34; x0a; x28; x56; x78; x79; x0a; x70; x35; x0a; x56; x6c; x61; x74; x69; x6e; x31; x0a; x70; x36; x0a; x74; x70; x37; x0a; x52; x70; x38; x0a; x74; x70; x39; x0a; x73; x61; x67; x32; x0a; x61; x4c; x31; x31; x38; x30; x35; x39; x31; x36; x32; x30; x37; x31; x37; x34; x31; x31; x33; x30; x33; x34; x32; x34; x4c; x0a; x61; x49; x2d; x35; x0a; x61; x56; x74; x65; x78; x74; x0a; x70; x31; x30; x0a; x61; x2e].
+Definition cpython_pickle_p2 : bytes :=
+  [x80; x02; x5d; x71; x00; x28; x5d; x71; x01; x28; x4b; x01; x4b; x02; x65; x7d; x71; x02; x28; x4b; x01; x68; x01; x58; x01; x00; x00; x00; x6b; x71; x03; x28; x4e; x88; x47; x40; x04; x00; x00; x00; x00; x00; x00; x63; x5f; x63; x6f; x64; x65; x63; x73; x0a; x65; x6e; x63; x6f; x64; x65; x0a; x71; x04; x58; x02; x00; x00; x00; x78; x79; x71; x05; x58; x06; x00; x00; x00; x6c; x61; x74; x69; x6e; x31; x71; x06; x86; x71; x07; x52; x71; x08; x74; x71; x09; x75; x68; x02; x8a; x09; x00; x00; x00; x00; x00; x00; x00; x00; x40; x4a; xfb; xff; xff; xff; x58; x04; x00; x00; x00; x74; x65; x78; x74; x71; x0a; x65; x2e].
+Definition cpython_pickle_p4 : bytes :=
+  [x80; x04; x95; x45; x00; x00; x00; x00; x00; x00; x00; x5d; x94; x28; x5d; x94; x28; x4b; x01; x4b; x02; x65; x7d; x94; x28; x4b; x01; x68; x01; x8c; x01; x6b; x94; x28; x4e; x88; x47; x40; x04; x00; x00; x00; x00; x00; x00; x43; x02; x78; x79; x94; x74; x94; x75; x68; x02; x8a; x09; x00; x00; x00; x00; x00; x00; x00; x00; x40; x4a; xfb; xff; xff; xff; x8c; x04; x74; x65; x78; x74; x94; x65; x2e].
+
+Definition expected : pv :=
+  let s := PList [PInt 1; PInt 2] in
+  let d := PDict [(PInt 1, s); (PUni [x6b], PTuple [PNone; PBool true; PFloat 4612811918334230528; PBytes [x78; x79]])] in
+  PList [s; d; d; PInt 1180591620717411303424; PInt (-5); PUni [x74; x65; x78; x74]].
+
+Definition loads (inp : bytes) : option pv :=
+  match dis inp with
+  | Some (prog, _) => match qload prog with Some (v, st) => unfold 60 (q_heap st) v | None => None end
+  | None => None
+  end.
+
+Example C02_cpython_pickles :
+  loads cpython_pickle_p0 = Some expected /\ loads cpython_pickle_p2 = Some expected /\ loads cpython_pickle_p4 = Some expected.
+Proof. vm_compute. repeat split; reflexivity. Qed.
